@@ -142,7 +142,8 @@ def _native_is_known(nat, findings, prop):
     for m in ms:
         ok = False
         for f in findings:
-            if f.get('status') != 'open' or prop not in f.get('properties', []):
+            # a listed finding is identified by its failing input, whichever property's search ran into it
+            if f.get('status') != 'open':
                 continue
             for pat in f.get('native_patterns', []):
                 if pat.get('class') == nat.get('class') and pat.get('clause') == m['clause'].split('[')[0] \
